@@ -619,4 +619,117 @@ def runPlan (kf : List Val → Nat) (n : Nat) (cs : List PCmd) (sh : List (List 
         (runChainBatches kf post merged).flatten
       | _ => []
 
+/-! ## 6. a DataProcessor with SEVERAL input streams (getStreamInput, suite pipeplan op `planms`)
+
+Mirrors dataprocessor.go getStreamInput (switch len(dp.streams): 0 / 1 / default), fetchFromAllStreamsWithData,
+CachedStream.Fetch / SetUnusedDataFromLastFetch / IsExhausted (streamer.go), iqr.MergeIQRs (one round: until one of the
+fetched batches is drained), DiscardAfter(limit - numReturned), and fetchFromAnyStream (whole batches in arrival order).
+An upstream stream is a replaying source: the list of the batches it delivers.  The order in which
+fetchFromAllStreamsWithData collects the batches of a round depends on the scheduler; the model takes stream order (with a
+comparator that tells all rows apart IndexOfMin does not depend on it: `multi_stream_input_is_merge`). -/
+
+/-- the condition of the fast path in getStreamInput, from the flags of the DataProcessor:
+`dp.IgnoresInputOrder() && dp.IsBottleneckCmd()` -/
+def Flags.readsUnmerged (d : Flags) : Bool := d.ignoresOrder && d.bottleneck
+
+/-- the condition seed C06-5 widened it to: `!dp.DoesInputOrderMatter() && dp.IsBottleneckCmd()` -/
+def Flags.readsUnmergedWidened (d : Flags) : Bool := !d.orderMatters && d.bottleneck
+
+/-- a CachedStream over a replaying source: `cur` = unusedDataFromLastFetch ([] = nil), `rest` = the batches the source has
+not delivered yet -/
+structure MStream where
+  cur : Table := []
+  rest : List Table
+deriving Repr
+
+/-- CachedStream.Fetch inside fetchFromAllStreamsWithData: unused data first, otherwise the next batch of the source; a stream
+whose source is at its end answers (nil, EOF), is exhausted from then on and takes no part -/
+def refill (s : MStream) : Option MStream :=
+  if !s.cur.isEmpty then some s
+  else
+    match s.rest with
+    | [] => none
+    | b :: bs => some { cur := b, rest := bs }
+
+def MStream.rows (s : MStream) : Table := s.cur ++ s.rest.flatten
+
+def takeOpt : Option Nat → List α → List α
+  | none, l => l
+  | some n, l => l.take n
+
+/-- getStreamInput, default branch without the fast path, called until it answers EOF: the batches handed to the processor.
+Each round: a batch from every stream that is not exhausted; none → EOF; MergeIQRs until one batch is drained; with a limit,
+EOF when limit - numReturned = 0, else DiscardAfter; numReturned += rows; what is left of every batch goes back to its stream. -/
+def msRun (less : Row → Row → Bool) (limit : Option Nat) : Nat → List MStream → Nat → List Table
+  | 0, _, _ => []
+  | fuel + 1, ss, numReturned =>
+    let live := ss.filterMap refill
+    if live.isEmpty then []
+    else
+      let r := mergeRound less (totalLen (live.map (·.cur)) + 1) (live.map (·.cur))
+      let next := List.zipWith (fun (s : MStream) (q : Table) => { s with cur := q }) live r.2
+      let thisLimit := limit.map (· - numReturned)
+      if thisLimit = some 0 then []
+      else
+        let out := takeOpt thisLimit r.1
+        out :: msRun less limit fuel next (numReturned + out.length)
+
+def msFuel (ss : List MStream) : Nat := (ss.map (fun s => s.rows.length + s.rest.length + 1)).sum + 1
+
+/-- fetchFromAnyStream until EOF: whole batches, in the order in which the streams answer.  `sched` says which of the streams
+that still have a batch is taken next (modulo their number; stream order once it is used up): every arrival order that keeps
+the order within each stream is one of these. -/
+def anyRun : Nat → List Nat → List (List Table) → List Table
+  | 0, _, _ => []
+  | fuel + 1, sched, ss =>
+    let live := ss.filter (fun s => !s.isEmpty)
+    if live.isEmpty then []
+    else
+      let i := sched.headD 0 % live.length
+      match live[i]? with
+      | some (b :: _) => b :: anyRun fuel sched.tail (live.modify i List.tail)
+      | _ => []
+
+/-- what the processor of a DataProcessor with the flags `d` consumes from its input streams until EOF (getStreamInput):
+one stream: its batches as they are; several: the fast path for `ignoresInputOrder && bottleneck`, the record-level merge
+otherwise.  (No stream: an error; not reached by the suite.) -/
+def streamInput (d : Flags) (less : Row → Row → Bool) (limit : Option Nat) (sched : List Nat) (streams : List (List Table)) : List Table :=
+  match streams with
+  | [] => []
+  | [s] => s
+  | _ =>
+    if d.readsUnmerged then anyRun ((streams.map List.length).sum + 1) sched streams
+    else msRun less limit (msFuel (streams.map (fun s => { rest := s }))) (streams.map (fun s => { rest := s })) 0
+
+/-- the rows (in merge order) dealt to k streams: row i goes to stream `asg[i]` -/
+def dealStreams (k : Nat) (asg : List Nat) (t : Table) : List Table :=
+  (List.range k).map (fun j => ((t.zip asg).filter (fun p => p.2 == j)).map (·.1))
+
+/-- a stream cut into batches: the sizes one after the other (never an empty batch), what is left over is one more batch -/
+def cutBatches : List Nat → Table → List Table
+  | _, [] => []
+  | [], t => [t]
+  | n :: ns, t => if n = 0 then cutBatches ns t else t.take n :: cutBatches ns (t.drop n)
+
+/-- the merge settings a DataProcessor is given by SetMergeSettingsBasedOnStream: nil → timestamp, most recent first, no limit;
+a sort → its comparator and its limit -/
+inductive MergeBy where
+  | timestamp
+  | sort (limit : Nat) (keys : List (String × Bool))
+deriving Repr
+
+def MergeBy.keys : MergeBy → List (String × Bool)
+  | .timestamp => [("timestamp", false)]
+  | .sort _ ks => ks
+
+def MergeBy.limit : MergeBy → Option Nat
+  | .timestamp => none
+  | .sort l _ => some (sortLimit l)
+
+/-- op `planms`: the first DataProcessor of the chain reads the streams, the rest of the chain reads it -/
+def runMS (kf : List Val → Nat) (m : MergeBy) (cs : List PCmd) (streams : List (List Table)) : Table :=
+  match (cs.flatMap PCmd.dps).head? with
+  | none => []
+  | some d => (runChainBatches kf cs (streamInput d (lessKeys m.keys) m.limit [] streams)).flatten
+
 end SigModel.PipePlan
